@@ -314,16 +314,23 @@ def state_rows(prog, A, fid):
 def module_table(prog, A, fids, call_rx, adts=(), cursors=True):
     """generic decision table of a set of functions: calls matching call_rx (literal arguments shown), constructions of the given
     ADTs, scan-position steps and state-variable assignments, predicate functions' return conditions"""
+    known = sym.known_functions()
+
     def eff(b, S, ev):
         nm = mir.strip_generics(ev[1])
         if not call_rx.search(nm):
             return None
+        if known is not None and ev[1] in prog.bodies and prog.bodies[ev[1]].kind != "Closure" and prog.bodies[ev[1]].file != "a2lfile/src/specification.rs" and nm not in known:
+            return None         # a helper the reviewed tree does not know: its effects are rows of their own (relocation), the call is not
         lits = []
         for i, a in enumerate(ev[2] or []):
             cs = sorted(sym.fmt(t) for t in a if isinstance(t, tuple) and t[0] == "const")
             if cs and len(cs) == len(a) and all(re.fullmatch(r"true|false|-?\d+_[iu](\d+|size)|\"[^\"]*\"", c) for c in cs):
                 lits.append("#%d=%s" % (i, "|".join(cs)))
-        return "call %s(%s)" % ("::".join(nm.split("::")[-1:]), ", ".join(lits))
+        last = nm.split("::")[-1]
+        if last == "extend" and re.search(r"(HashSet|HashMap|BTreeSet|BTreeMap)", nm):
+            last = "insert"     # set.extend(iter) records the same names as a loop of inserts
+        return "call %s(%s)" % (last, ", ".join(lits))
     t = table_for(prog, A, fids, eff)
     for fid in fids:
         extra = []
@@ -341,3 +348,15 @@ def module_table(prog, A, fids, call_rx, adts=(), cursors=True):
             t.setdefault(key, []).extend(extra)
             t[key].sort(key=lambda r: (r[0], r[1]))
     return t
+
+
+def with_new_functions(prog, fids):
+    """fids plus the functions of the same source files that the reviewed tree does not know (helpers extracted later): their
+    rows take part in the comparison so that relocated decisions can be matched"""
+    known = sym.known_functions()
+    if known is None:
+        return list(fids)
+    files = {prog.bodies[f].file for f in fids if f in prog.bodies}
+    extra = [f for f, b in prog.bodies.items() if b.file in files and b.kind != "Closure" and b.file != "a2lfile/src/specification.rs"
+             and mir.strip_generics(f) not in known and f not in fids and "::test" not in f]
+    return list(fids) + sorted(extra)
